@@ -826,6 +826,12 @@ class ModuleVistor(NodeVisitor):
         if isinstance(value, Str):
             attr = self.builder.currentAttr
             if attr is not None:
+                if attr.parsed_docstring is not None and attr.docstring is None:
+                    # Already documented by a field (@ivar, @cvar, @var) of the class or module docstring,
+                    # which is the text that is displayed.
+                    attr.report('%s is documented by a field of %s and by its own docstring, '
+                                'the docstring is not displayed' % (attr.name, attr.parent.fullName()),
+                                lineno_offset=value.lineno - attr.linenumber)
                 attr.setDocstring(value)
                 self.builder.currentAttr = None
         self.generic_visit(node)
